@@ -1043,10 +1043,8 @@ int main(void) {
           printf(" b=%s:", rcname(rc));
           if (!rc) {
             dump_jbl(res, pool);
-            // Only with VERIF_C14_JUDGE_SCLONE=1: on a library without fixes/jbinn-clone-scalar-leak.diff jbl_clone() reads the
-            // BYTES of a scalar (string contents, the value union) as a binn header - a string starting with 0xE0..0xE2 makes
-            // it copy `size` bytes from there (crash / over-read), so the call is not safe to make by default
-            if (jbl_type(res) < JBV_OBJECT && getenv("VERIF_C14_JUDGE_SCLONE")) {
+            // (before c9ab017 jbl_clone() read the BYTES of a scalar - string contents, the value union - as a binn header)
+            if (jbl_type(res) < JBV_OBJECT) {
               // jbl_clone of a value that is not a container: when it fails there must be nothing left to destroy
               struct jbl *sc = (struct jbl*) 1;
               iwrc rc2 = jbl_clone(res, &sc);
